@@ -4,6 +4,7 @@ Tree (JSON lists)
     ["in", name]                 input port (value from env)
     ["lit", n]                   Python int literal
     ["ek", n_members, i]         enum constant (member i of the design's enum with n members)
+    ["kb", 0|1]  ["kbit", 0|1]   compile-time constants False/True and Bit(0)/Bit(1) (operands of and / or / any / all)
     [binop, x, y]                binop in cv.ref.values.BINARY  (add sub mul truncdiv floordiv mod rem shl shr concat
                                  and or xor eq ne lt le gt ge)
     [unop, x]                    inv neg abs signed unsigned bitvector bool lnot anyv allv
@@ -103,6 +104,10 @@ class Ev:
             return rv.integer(t[1]), False
         if tag == "ek":
             return V("enum", t[1], t[2]), False
+        if tag == "kb":
+            return rv.boolean(t[1]), False
+        if tag == "kbit":
+            return rv.bit(t[1]), False
         m = getattr(self, "_" + tag, None)
         if m is not None:
             r, rt = m(t)
@@ -194,7 +199,9 @@ class Ev:
 
     def _nary_truth(self, t, is_all):
         rs = [self.ev(x) for x in t[1:]]
-        ts = [truth(v) for v, _ in rs]
+        # compile-time constants (Python bool / int, constant Bit) fold the Python way: bool(x)
+        ts = [int(v.value != 0) if (v is not UNSPEC and v.kind == "int" and not r and v.value is not None) else truth(v)
+              for v, r in rs]
         rt = any(r for _, r in rs)
         if any(x is UNSPEC for x in ts) or not ts:
             return UNSPEC, rt
@@ -316,6 +323,10 @@ def selfcheck():
     assert ev(["aidx", "arr", ["resize", 2, 0, ["unsigned", ["slice", 0, 0, ["in", "c"]]]]]) == V("u", 2, 2)
     assert ev(["land", ["in", "d"], ["lnot", ["in", "c"]]]) == rv.boolean(False)
     assert ev(["allv", ["in", "c"]]) == rv.boolean(False) and ev(["anyv", ["in", "c"]]) == rv.boolean(True)
+    assert ev(["all", ["in", "d"], ["kb", 0], ["kb", 1], ["in", "a"]]) == rv.boolean(False)
+    assert ev(["all", ["in", "d"], ["lit", 3], ["kbit", 1], ["in", "a"]]) == rv.boolean(True)
+    assert ev(["lor", ["lnot", ["in", "d"]], ["lit", 0], ["kbit", 0]]) == rv.boolean(False)
+    assert ev(["any", ["lnot", ["in", "d"]], ["kb", 0], ["lit", -1]]) == rv.boolean(True)
     assert ev(["mul", ["truncdiv", ["in", "a"], ["lit", 0]], ["in", "a"]]) == V("u", 6, None)
     assert ev(["eq", ["lt", ["in", "a"], ["lit", 6]], ["lnot", ["in", "d"]]]) == rv.boolean(False)
     assert static_type(["mul", ["in", "a"], ["in", "a"]], {"a": ("u", 3)}) == ("u", 6)
